@@ -486,6 +486,24 @@ class SymArray:
     def min(self):
         return _reduce(self._flat(), s_min)
 
+    def _arg(self, op):
+        """Index of the first extreme element; every comparison that the path condition does not settle splits the path."""
+        if self.ndim != 1:
+            raise Unsupported("argmin/argmax of a 2-D symbolic array")
+        if not self.d:
+            raise ValueError("attempt to get argmin/argmax of an empty sequence")
+        best = 0
+        for j in range(1, len(self.d)):
+            if bool(_cmp(self.d[j], self.d[best], op)):
+                best = j
+        return QI(best)
+
+    def argmin(self, axis=None):
+        return self._arg("lt")
+
+    def argmax(self, axis=None):
+        return self._arg("gt")
+
     def _flat(self):
         if self.ndim == 2:
             return [x for r in self.d for x in r.d]
@@ -1135,7 +1153,10 @@ class NP:
         return self.nonzero(a)[0]
 
     def argmax(self, a):
-        raise Unsupported("np.argmax on symbolic values")
+        return asarray(a).argmax()
+
+    def argmin(self, a):
+        return asarray(a).argmin()
 
     def isnan(self, x):
         return asarray(x)._map(lambda v: bool(getattr(v, "__sx_nan__", False)), "bool") if not _is_scalar(x) else bool(getattr(x, "__sx_nan__", False))
